@@ -174,4 +174,7 @@ def lindblad(
                 # Handle special observables if needed, or leave as 0/NaN
                 obs_results[i, t_idx] = 0.0
 
+    if not sim_params.sample_timesteps:
+        # only the value at the final time is reported
+        return obs_results[:, -1:]
     return obs_results
